@@ -68,6 +68,9 @@ def parse_tlc(out, res):
     m = re.search(r"Error: Action property (\S+) is violated", out)
     if m:
         res.violated, res.kind = m.group(1), "property"
+    m = re.search(r"Error: Temporal property (\S+) was violated", out)
+    if m:
+        res.violated, res.kind = m.group(1), "property"
     if "Temporal properties were violated" in out:
         res.violated, res.kind = res.violated or "temporal", "property"
     m = re.search(r"Error: The postcondition (\S+)? ?.*(violated|false)", out)
